@@ -124,7 +124,8 @@ class Instrument(ast.NodeTransformer):
                 continue
             first = False
             if self.yields:
-                y = ast.Expr(ast.Call(ast.Name("__sx_yield__", ast.Load()), [ast.Constant(getattr(s, "lineno", 0))], []))
+                y = ast.Expr(ast.Call(ast.Name("__sx_yield__", ast.Load()),
+                                      [ast.Constant(self.modname.split(".")[-1]), ast.Constant(".".join(self.scope)), ast.Constant(getattr(s, "lineno", 0))], []))
                 out.append(ast.copy_location(y, s))
             out.append(s)
         return out
